@@ -73,9 +73,13 @@ CLAIMED = {
              'preserved under a common prefix), config-vs-context origin of a value, and the values substituted for '
              'placeholders. Tied to the code by differential runs of the whole chain model on (configuration, '
              'computation-preserving rewriting) pairs: renamed files, permutations, extra unpersisted parameters, changed '
-             'global_vars, mounting under a namespace; oracle: corresponding tasks keep their path.',
-        note='partial: the interpreter hash seed is outside the model; AutoParameterObject arguments that are mappings '
-             'are insertion-ordered in the code (refuted example in the file, known finding K2, not yet replayed)',
+             'global_vars, mounting under a namespace, mapping keys inside object arguments; oracle: corresponding tasks keep '
+             'their path; registry-level pairs for AutoParameterObject arguments; fresh interpreters under different hash seeds.',
+        note='partial: the interpreter hash seed is outside the model - it is exercised by building the same configuration in '
+             'fresh interpreters under different PYTHONHASHSEED values (runtime suite). Three open known findings, each with a '
+             'Coq witness or a replayed runtime witness: the keyword order of instantiated objects (K2a) and the insertion '
+             'order of mapping-valued AutoParameterObject arguments (K2a2) enter the key; a parameter object holding a set of '
+             'strings makes the key depend on the hash seed (K2b). Not repaired: any canonicalisation moves stored results (C12).',
         technique='Coq proof (sorted-permutation uniqueness, sort/map commutation) + differential correspondence via vm_compute',
         ref='DESIGN.md section 5, C02'),
     'C03': dict(
